@@ -1976,7 +1976,9 @@ void SoPlexBase<R>::_solveRealForRationalStable(
       if(primalFeasible && dualFeasible)
       {
          SPX_MSG_INFO1(spxout, spxout << "Tolerances reached.\n");
-         return;
+         // leave the loop (not the function): the objective value, the basis status correction and the clean-up below
+         // must still be done
+         break;
       }
 
 
@@ -2915,7 +2917,9 @@ void SoPlexBase<R>::_solveRealForRationalBoostedStable(
       if(primalFeasible && dualFeasible)
       {
          SPX_MSG_INFO1(spxout, spxout << "Tolerances reached.\n");
-         return;
+         // leave the loop (not the function): the objective value, the basis status correction and the clean-up below
+         // must still be done
+         break;
       }
 
       // terminate if some limit is reached
